@@ -171,7 +171,7 @@ fn emit_case(out: &mut Out, rng: &mut Rng, models: &[TableDef], history: &[Migra
 
         // ---- oracles on the implementation ----
         let mut oracles = serde_json::Map::new();
-        if let (Ok(p), Ok(b)) = (&plan, &replay) {
+        if let (Ok(p), Ok(b), true) = (&plan, &replay, gener::loader_accepts(models)) {
             // O-C06: stepwise application
             let mut s = b.clone();
             let mut c06: Option<(usize, String)> = None;
